@@ -39,6 +39,7 @@ class Harness:
         N, L = self.N, self.L
         kind = self.kinds[c.choose(len(self.kinds), 'kind')]
         m = SymMgr(N, 0, L, with_cache=False, with_refs=False)
+        m.decl = 'choose'
         m.assume_pre()
         bdd = m.install(self.B)
         bdd._assert_int = lambda x: x
